@@ -93,6 +93,37 @@ theorem rollback_restores_realloc (sched : Sched) (hs : SchedWF sched) (n : Node
       obtain ⟨_, _, hdw⟩ := calculateRealloc_spec sched hs n origin ho req new' delta' hc
       exact incr_decr_restores n n'' hw hv [delta'] (by intro w hw'; simp only [List.mem_singleton] at hw'; subst hw'; exact hdw) hset
 
+/-- Manager level, several plugins: a commit (`Manager.SetNodeResourceUsage`, used by Alloc,
+    RollbackAlloc/release, Realloc, RollbackRealloc) in which *another* plugin fails never
+    succeeds and leaves the cpumem usage as it was before: cobalt rolls every succeeded plugin
+    back by rewriting its usage with the `Before` it reported (a deep copy of what it read),
+    and the plugin accepts that rewrite. -/
+theorem failed_commit_restores (n : NodeInfo) (hw : WFNode n) (hv : Valid n) (ws : List WorkloadRes)
+    (hws : ∀ w ∈ ws, WFW w) (incr : Bool) :
+    (commitUsage n ws incr true).2 ≠ none ∧ UsageEq (commitUsage n ws incr true).1.usage n.usage ∧
+    (commitUsage n ws incr true).1.capacity = n.capacity ∧ Valid (commitUsage n ws incr true).1 := by
+  unfold commitUsage
+  cases h : setNodeResourceUsage n none ws true incr with
+  | error e => exact ⟨by simp, usageEq_refl _, rfl, hv⟩
+  | ok n' =>
+    obtain ⟨hc, hw', _⟩ := set_usage_spec n n' hw ws hws incr h
+    obtain ⟨_, r2, r3, r4⟩ := rollbackUsage_spec n n' hw hv hw' hc
+    exact ⟨by simp, r3, r4, r2⟩
+
+/-- The same over histories: an operation that does not succeed — refused, invalid, failing
+    validation, or failing because another plugin fails in its commit — leaves usage and live
+    set as they were; in particular usage = Σ live still holds (`usage_eq_sum_live` covers
+    histories containing such operations, `Op.failing`). -/
+theorem failed_operation_leaves_usage (sched : Sched) (hs : SchedWF sched) (s : State) (h : Inv s) (op : Op)
+    (hf : (step sched s op).2 = false) :
+    UsageEq (step sched s op).1.node.usage s.node.usage ∧ (step sched s op).1.live = s.live :=
+  failed_step_unchanged sched hs s h op hf
+
+theorem other_plugin_failure_restores (sched : Sched) (hs : SchedWF sched) (s : State) (h : Inv s) (op : Op) :
+    (step sched s (.failing op)).2 = false ∧
+    UsageEq (step sched s (.failing op)).1.node.usage s.node.usage ∧ (step sched s (.failing op)).1.live = s.live :=
+  failing_step_restores sched hs s h op
+
 /-- Group lemma: adding a resource to a usage and subtracting it again gives the same usage,
     with zero entries treated extensionally. -/
 theorem add_sub_cancel (r x : NodeRes) (h1 : WF x.cpuMap) (h2 : WF x.numaMemory) : UsageEq ((r.add x).sub x) r := by
